@@ -78,14 +78,15 @@ fn attrs_for_node(seed: u8, key: Key) -> Attrs {
         0 => None,
         1 => Some(vec![]),
         2 => Some(vec![("label".into(), format!("n{}", key))]),
-        _ => Some(vec![("label".into(), format!("n{}", key)), ("color".into(), format!("c{}", seed % 5))]),
+        // (an attribute whose value is the empty string is an attribute: `[color=""]`)
+        _ => Some(vec![("label".into(), if (key as usize + seed as usize) % 8 == 7 { String::new() } else { format!("n{}", key) }), ("color".into(), if seed % 5 == 0 { String::new() } else { format!("c{}", seed % 5) })]),
     }
 }
 fn attrs_for_edge(seed: u8, u: Key, v: Key, e: EV) -> Attrs {
     match (u as usize + 2 * v as usize + e as usize + seed as usize) % 3 {
         0 => None,
         1 => Some(vec![("w".into(), format!("{}", e))]),
-        _ => Some(vec![("w".into(), format!("{}", e)), ("tag".into(), format!("{}to{}", u, v))]),
+        _ => Some(vec![("w".into(), format!("{}", e)), ("tag".into(), if (u + v) % 2 == 0 { String::new() } else { format!("{}to{}", u, v) })]),
     }
 }
 fn attrs_for_graph(seed: u8) -> Attrs {
